@@ -160,3 +160,105 @@ Proof. intros H. unfold minimum_value_p. destruct v; try discriminate. destruct 
 (* and it is only that: a 9-byte "proof" with the min-value flag would slice out of range *)
 Lemma minimum_value_short_panics : minimum_value_conf false (x60 :: repeat x00 8) = Panic WSlice.
 Proof. reflexivity. Qed.
+
+(* ------------------------------------------------------------------------------------------------ Pset::locktime *)
+Definition lt_inv (st : ltk * ltk) : Prop :=
+  match st with (Unconstrained, Disallowed) | (Disallowed, Unconstrained) => False | _ => True end.
+Lemma lt_max_min a x : lt_max a (Minimum x) <> Unconstrained. Proof. destruct a; discriminate. Qed.
+Lemma lt_step_inv st inp : lt_inv st -> lt_inv (lt_step st inp).
+Proof. destruct st as [t h], inp as [[rt|] [rh|]]; cbn [lt_step]; intros I; try exact I.
+  - pose proof (lt_max_min t rt). pose proof (lt_max_min h rh). destruct (lt_max t (Minimum rt)), (lt_max h (Minimum rh)); cbn; auto.
+  - pose proof (lt_max_min t rt). destruct (lt_max t (Minimum rt)); cbn; auto.
+  - pose proof (lt_max_min h rh). destruct (lt_max h (Minimum rh)); cbn; auto. Qed.
+Lemma lt_fold_inv inputs : forall st, lt_inv st -> lt_inv (fold_left lt_step inputs st).
+Proof. induction inputs as [|i r IH]; intros st I; [exact I|]. cbn [fold_left]. apply IH, lt_step_inv, I. Qed.
+Lemma locktime_p_total fallback inputs x : locktime_p fallback inputs <> Panic x.
+Proof. unfold locktime_p. pose proof (lt_fold_inv inputs (Unconstrained, Unconstrained) I) as H.
+  destruct (fold_left lt_step inputs (Unconstrained, Unconstrained)) as [[| |] [| |]]; cbn in H; try discriminate; contradiction. Qed.
+
+(* ------------------------------------------------------------------------------------------------ Global::merge, xpub branch *)
+Lemma eqp_spec (a b : list N) : (if list_eq_dec N.eq_dec a b then true else false) = true <-> a = b.
+Proof. destruct (list_eq_dec N.eq_dec a b); split; congruence. Qed.
+(* the panic class is exactly F2: other's path strictly shorter than self's and not its suffix *)
+Lemma merge_xpub_panic_iff f2 d2 f1 d1 : (exists w, merge_xpub f2 d2 f1 d1 = Panic w) <-> known_F2 d2 d1 = true.
+Proof. unfold merge_xpub, known_F2, is_suffix.
+  destruct (Nat.ltb_spec (length d1) (length d2)) as [Lt|Ge].
+  - assert (Hle : (length d1 <=? length d2)%nat = true) by (apply Nat.leb_le; lia). rewrite Hle. cbn [andb].
+    destruct (list_eq_dec N.eq_dec d1 d2) as [->|NE]; [lia|]. cbn [andb].
+    rewrite usub_ok by lia. cbn [bind]. rewrite slice_from_ok by lia. cbn [bind].
+    destruct (list_eq_dec N.eq_dec d1 (skipn (length d2 - length d1) d2)) as [S|NS]; cbn [negb].
+    + split; [intros [w H]; discriminate|discriminate].
+    + rewrite usub_panic by lia. cbn [bind]. split; eauto.
+  - cbn [andb]. split; [|discriminate]. intros [w H]. destruct (_ && _); [discriminate|].
+    cbn [bind] in H. rewrite usub_ok in H by lia. cbn [bind] in H. rewrite slice_from_ok in H by lia. cbn [bind] in H.
+    destruct (list_eq_dec N.eq_dec d2 _); discriminate. Qed.
+Lemma merge_xpub_refuted : merge_xpub [x00; x00; x00; x00] [1; 2; 3] [x00; x00; x00; x00] [9] = Panic WSub.
+Proof. reflexivity. Qed.
+
+(* ------------------------------------------------------------------------------------------------ Transaction::blind, output selection *)
+Definition nblind (outs : list bout) : nat := length (filter to_blind outs).
+Lemma blind_loop_spec : forall outs i n nb last bl r, blind_loop outs i n nb last bl = Val r -> (nb + nblind outs = n)%nat ->
+  (fst r = None -> last = None /\ nblind outs = 0%nat) /\
+  (forall li, fst r = Some li -> last = Some li \/ (i <= li < i + length outs)%nat).
+Proof. induction outs as [|o rest IH]; intros i n nb last bl r H Hn; cbn [blind_loop] in H.
+  - inversion H; subst r. cbn [fst]. split; [intros ->; auto|intros li ->; auto].
+  - unfold nblind in *. cbn [filter length] in *. unfold to_blind in Hn at 1. unfold to_blind at 1.
+    destruct (bo_fee o) eqn:Ef; cbn [orb negb andb] in *.
+    { destruct (IH _ _ _ _ _ _ H Hn) as [A B]. split; [exact A|]. intros li Hl. destruct (B li Hl); [auto|right; lia]. }
+    destruct (bo_marked o) eqn:Em; cbn [negb] in *.
+    2:{ destruct (IH _ _ _ _ _ _ H Hn) as [A B]. split; [exact A|]. intros li Hl. destruct (B li Hl); [auto|right; lia]. }
+    cbn [length] in Hn. destruct (bo_addr o); cbn [negb] in H; [|discriminate].
+    destruct (Nat.ltb_spec (nb + 1) n).
+    + destruct (IH _ _ _ _ _ _ H ltac:(lia)) as [A B]. split.
+      * intros Hn0. destruct (A Hn0) as [_ Z]. lia.
+      * intros li Hl. destruct (B li Hl); [auto|right; lia].
+    + destruct (IH _ _ _ _ _ _ H ltac:(lia)) as [A B]. split.
+      * intros Hn0. destruct (A Hn0) as [Z _]. discriminate.
+      * intros li Hl. destruct (B li Hl) as [Z|Z]; [inversion Z; subst; right; lia|right; lia]. Qed.
+Lemma nblind_zero outs : nblind outs = 0%nat <-> known_F12 outs = true.
+Proof. unfold nblind, known_F12. induction outs as [|o r IH]; cbn [filter existsb length]; [tauto|].
+  destruct (to_blind o); cbn [length orb negb]; [split; [lia|discriminate]|exact IH]. Qed.
+Lemma blind_loop_none : forall outs i n nb last bl, nblind outs = 0%nat -> blind_loop outs i n nb last bl = Val (last, rev' bl).
+Proof. unfold nblind. induction outs as [|o r IH]; intros i n nb last bl K; cbn [blind_loop]; [reflexivity|].
+  cbn [filter] in K. unfold to_blind in K at 1. destruct (bo_fee o); cbn [orb negb andb] in *; [now apply IH|].
+  destruct (bo_marked o); cbn [negb] in *; [cbn [length] in K; lia|now apply IH]. Qed.
+Lemma blind_loop_no_panic : forall outs i n nb last bl w, blind_loop outs i n nb last bl <> Panic w.
+Proof. induction outs as [|o r IH]; intros i n nb last bl w; cbn [blind_loop]; [discriminate|].
+  destruct (bo_fee o || negb (bo_marked o)); [apply IH|]. destruct (negb (bo_addr o)); [discriminate|]. destruct (_ <? _)%nat; apply IH. Qed.
+(* the only panic is the `expect` when no output is marked for blinding: F12 *)
+Lemma blind_select_panic_iff outs : (exists w, blind_select outs = Panic w) <-> known_F12 outs = true.
+Proof. unfold blind_select. fold (nblind outs). split.
+  - intros [w H]. destruct (blind_loop outs 0 (nblind outs) 0 None []) as [[last bl]|e|w'] eqn:L; cbn [bind] in H; [|discriminate|exfalso; exact (blind_loop_no_panic _ _ _ _ _ _ _ L)].
+    destruct (blind_loop_spec _ _ _ _ _ _ _ L ltac:(lia)) as [A B]. cbn [fst] in A, B. destruct last as [li|]; cbn [expect bind] in H.
+    + destruct (B li eq_refl) as [Z|Z]; [discriminate|]. rewrite (idx_ok outs li {| bo_fee := false; bo_marked := false; bo_addr := false |}) in H by lia. discriminate.
+    + destruct (A eq_refl) as [_ Z]. now apply nblind_zero.
+  - intros K. apply nblind_zero in K. rewrite blind_loop_none by exact K. cbn. eauto. Qed.
+Lemma blind_select_refuted : blind_select [ {| bo_fee := true; bo_marked := false; bo_addr := false |} ] = Panic WExpect. Proof. reflexivity. Qed.
+
+(* ------------------------------------------------------------------------------------------------ fee sums *)
+Lemma fee_sum_release vals : forall acc w, fee_sum Release vals acc <> Panic w.
+Proof. induction vals as [|v r IH]; intros acc w; cbn [fee_sum]; [discriminate|]. destruct (_ <? _); apply IH. Qed.
+Lemma fee_sum_debug vals : forall acc, acc < 2 ^ 64 ->
+  (fee_sum Debug vals acc = Panic WAdd /\ 2 ^ 64 <= acc + fold_right N.add 0 vals) \/
+  (fee_sum Debug vals acc = Val (acc + fold_right N.add 0 vals) /\ acc + fold_right N.add 0 vals < 2 ^ 64).
+Proof. induction vals as [|v r IH]; intros acc H; cbn [fee_sum fold_right].
+  - right. split; [f_equal; lia|lia].
+  - destruct (N.ltb_spec (acc + v) (2 ^ 64)) as [L|G].
+    + destruct (IH (acc + v) L) as [[E B]|[E B]]; [left|right]; (split; [exact E|lia]) || (split; [rewrite E; f_equal; lia|lia]).
+    + left. split; [reflexivity|lia]. Qed.
+Lemma fee_in_panic_iff outs asset : (exists w, fee_in Debug outs asset = Panic w) <-> known_F17 outs asset = true.
+Proof. unfold fee_in, known_F17. destruct (fee_sum_debug (map snd (filter (fun o => fst o =? asset) outs)) 0 ltac:(lia)) as [[E B]|[E B]]; rewrite E.
+  - split; [intros _; apply N.leb_le; lia|eauto].
+  - split; [intros [w H]; discriminate|]. intros K. apply N.leb_le in K. lia. Qed.
+Lemma fee_in_refuted : fee_in Debug [(3, 18446744073709551615); (3, 1)] 3 = Panic WAdd /\ fee_in Release [(3, 18446744073709551615); (3, 1)] 3 = Val 0.
+Proof. split; reflexivity. Qed.
+
+(* ------------------------------------------------------------------------------------------------ commitments from slices *)
+Lemma from_commitment_panic_iff pt_ok sl : (exists w, from_commitment_p pt_ok sl = Panic w) <-> known_F18 sl = true.
+Proof. unfold from_commitment_p, known_F18. destruct (Nat.eqb (length sl) 33); cbn [negb]; split; try discriminate; eauto. intros [w H]; discriminate. Qed.
+
+(* ------------------------------------------------------------------------------------------------ TaprootBuilder *)
+Lemma finalize_p_api items b : api_builder items = Taproot.Ok b -> forall s, finalize_p b <> Taproot.Panic s.
+Proof. unfold api_builder, finalize_p. intros R s. destruct (run_head_some triv triv items b R) as [->|(n & r & ->)]; [discriminate|].
+  unfold Taproot.finalize. destruct (1 <? _)%nat; [discriminate|]. unfold from_node_info, new_key_spend, tap_tweak. cbn. discriminate. Qed.
+Lemma finalize_p_serde_refuted : finalize_p [None] = Taproot.Panic BuilderInvariant /\ known_F16 [None] = true. Proof. split; reflexivity. Qed.
